@@ -62,6 +62,21 @@ def engine_module(name: str):
     return importlib.import_module(f"sim.{name}")
 
 
+def fixed_plans_for(engine: str, tier: str) -> list:
+    """Deterministic plans run in every batch: the engine's own enumerations plus the regression corpus
+    (/verif/corpus/<engine>/*.json - minimised plans of every violation this machinery has found so far)."""
+    eng = engine_module(engine)
+    plans = list(eng.fixed_plans(tier)) if hasattr(eng, "fixed_plans") else []
+    cdir = os.path.join(VERIF, "corpus", engine)
+    if os.path.isdir(cdir):
+        for name in sorted(os.listdir(cdir)):
+            if name.endswith(".json"):
+                with open(os.path.join(cdir, name)) as f:
+                    doc = json.load(f)
+                plans.append(doc["plan"] if "plan" in doc else doc)
+    return plans
+
+
 def known_keys(prop: str) -> dict:
     return {
         f["key"]: f
@@ -103,7 +118,7 @@ def cmd_worker(a) -> int:
             t0 = time.time()
             try:
                 if i >= FIXED_BASE:
-                    plan = eng.fixed_plans(a.tier)[i - FIXED_BASE]
+                    plan = fixed_plans_for(a.engine, a.tier)[i - FIXED_BASE]
                     line["fixed_plan"] = i - FIXED_BASE
                 else:
                     plan = eng.generate(random.Random(rs), a.tier)
@@ -313,9 +328,8 @@ def collect(procs, wall):
 def run_engine(prop, engine, tier, seed, runs, n_workers, wall, scratch):
     indices = list(range(runs))
     eng = engine_module(engine)
-    n_fixed = 0
-    if hasattr(eng, "fixed_plans"):
-        n_fixed = len(eng.fixed_plans(tier))
+    n_fixed = len(fixed_plans_for(engine, tier))
+    if n_fixed:
         indices = [FIXED_BASE + j for j in range(n_fixed)] + indices
     t0 = time.time()
     # determinism probe: same seeds, different worker count, different hash seed, fresh interpreters
@@ -559,8 +573,7 @@ def cmd_selftest(a) -> int:
             runs = a.runs or runs
             eng = engine_module(engine)
             indices = list(range(runs))
-            if hasattr(eng, "fixed_plans"):
-                indices = [FIXED_BASE + j for j in range(len(eng.fixed_plans(tier)))] + indices
+            indices = [FIXED_BASE + j for j in range(len(fixed_plans_for(engine, tier)))] + indices
             pa = spawn_workers(prop, engine, tier, seed, indices, 16, wall, scratch, "A", hashseed=0)
             pb = spawn_workers(prop, engine, tier, seed, indices, 5, wall, scratch, "B", hashseed=12345)
             la, ea = collect(pa, wall)
